@@ -17,6 +17,7 @@ CLAIMS = {
 }
 SES = 'TLA+ specifications spec/Ini.tla (INI reader automaton, section/name resolution, application, writer) and spec/ArgParse.tla, TLC'
 CLAIMS.update({
+    'C19': ('5.19', 'TLA+ specifications spec/Tag.tla (tag scanner automaton, declarative tag grammar, tag values -> attributes) and spec/Decl.tla (fields -> public model or typed setup error), TLC', 'invariants ScannerIsGrammar (the scanner automaton accepts exactly the declarative grammar) and BodyDecoded (a value is the Go string literal it is written as) of MC_Tag over all strings up to the bound; every string is replayed on the real library as the tag of a reflect.StructOf field; seeded random declarations (escapes, repeated keys, non-ASCII, marks in every spelling, collisions directly and through namespaces, too-long short names, defaults on boolean flags, malformed tags at random positions) are built with the real library and TLC compares the public model attribute by attribute (Groups / Options / Commands / Args, namespaced long names, env keys) or the type of the setup error'),
     'C16': ('5.16', 'TLA+ specifications spec/Help.tla (which items are shown along the active chain, what each row says) and spec/HelpProps.tla (ContentOK, ManOK), TLC', 'invariant Lay (ContentOK part) of MC_Help on the layout the specification produces for every catalogue declaration, selectable chain and width; on the real code the same predicate is evaluated by TLC on the real help text (WriteHelp and the text inside ErrHelp) and ManOK on the real man page, for the enumerated cases and for seeded random declarations decorated with marker descriptions, value names, masks with unique secret defaults, hidden items at every depth; equality of the whole real text with the specification layout is reported as a fidelity figure'),
     'C17': ('5.17', 'TLA+ specifications spec/Help.tla (alignment arithmetic, greedy wrapping over characters, hard break, minimum width) and spec/HelpProps.tla (LayoutOK), TLC', 'invariant Lay (no negative padding, LayoutOK) of MC_Help for all widths 0..120 (quick) / 0..300 (thorough) on catalogue declarations with non-ASCII names, long unbreakable words and embedded newlines; on the real code TLC evaluates LayoutOK (common description column, continuation lines indented to it, de-wrapped text equal to the original words, no line beyond the width when 10 columns remain) on the text produced with fd 0 attached to a pty of the chosen width, for the enumerated cases and seeded random declarations and widths 0..300'),
     'C18': ('5.18', 'TLA+ specifications spec/Completion.tla (the completion walk as the code does it, and the candidates derived from the parser context of spec/ArgParse.tla), TLC', 'invariants WalkAgreesWithParser (the separately implemented completion walk and the parser reach the same context and candidate list on every valid prefix), OfferedIsAccepted (every offered option / command name is accepted by the specification of the parser at that position) and Sorted of MC_Completion, exhaustively over typed words up to the bound and a set of partial words; every case and seeded random (declaration, valid prefix cut at a random point, partial word) scenarios are run through the real completion (GO_FLAGS_COMPLETION + CompletionHandler); TLC compares the offered items with the declarative candidate list and checks what the real parser answers to every offered name'),
